@@ -370,6 +370,7 @@ static int ring_ok(a_que *q)
     }
     return cnt == (int)q->num_ && q->head_.next->prev == &q->head_ && q->head_.prev->next == &q->head_;
 }
+static int fault_noretry;
 static int fault_que(int const *v, long single, long from)
 {
     int op = v[1], a1 = v[2], a2 = v[3];
@@ -406,6 +407,12 @@ static int fault_que(int const *v, long single, long from)
     fprintf(f, ",\"fail\":{\"ret_fail\":%d,\"num\":%d,\"mem\":%d,\"siz\":%d,\"seq\":", ret_fail, ring_ok(&q[1]) ? (int)q[1].num_ : -1,
             (int)(q[1].num_ + q[1].cur_), (int)q[1].siz_);
     put_vals(f, &q[1]);
+    if (fault_noretry)
+    {
+        /* the queues are destroyed right after the failed call */
+        fputs("},\"noretry\":1,\"retry\":{\"ok\":0", f);
+        goto destroy_it;
+    }
     p = NULL; rc = 0;
     f_begin(0, 0);
 #include "que_ops.inc"
@@ -414,6 +421,7 @@ static int fault_que(int const *v, long single, long from)
     int retry_ok = (op == 15 || op == 16) ? rc == 0 : p != NULL;
     fprintf(f, "},\"retry\":{\"ok\":%d,\"num\":%d,\"mem\":%d,\"seq\":", retry_ok, ring_ok(&q[1]) ? (int)q[1].num_ : -1, (int)(q[1].num_ + q[1].cur_));
     put_vals(f, &q[1]);
+destroy_it:
     fputs("},\"expected\":", f);
     put_seq(f, s1b, n1b);
     a_que_dtor(&q[1], NULL);
@@ -655,6 +663,9 @@ int main(int argc, char **argv)
                 if ((rc = fault_que(v, k, 0)) != 0) { return rc; }
                 if (k < R && (rc = fault_que(v, 0, k)) != 0) { return rc; }
             }
+            fault_noretry = 1;
+            if ((rc = fault_que(v, 0, 1)) != 0) { return rc; }
+            fault_noretry = 0;
         }
     }
     for (int i = 0; i < nb; ++i) { fclose(fo[i]); }
